@@ -368,6 +368,17 @@ def _git(args, cwd, input=None, global_config="/dev/null"):
                                "GIT_AUTHOR_NAME": "t", "GIT_AUTHOR_EMAIL": "t@e", "GIT_COMMITTER_NAME": "t", "GIT_COMMITTER_EMAIL": "t@e"})
 
 
+def in_unignored_untracked_dir(x, ign, tracked):
+    """the shape of the known finding: the topmost directory above `x` that holds no tracked file is *not* ignored itself (had
+    it been, `git ls-files --directory` would have listed it as one entry and the walk would have pruned it)"""
+    parts = x.split("/")
+    for k in range(1, len(parts)):
+        d = "/".join(parts[:k])
+        if not any(t.startswith(d + "/") for t in tracked):
+            return not any("/".join(parts[:j]) in ign for j in range(1, k + 1))
+    return False
+
+
 class VcsGitStream(Stream):
     name = "vcsgit"
     rule = ("random Git repositories (generated .gitignore hierarchies with globs, directory rules and negations; names with "
@@ -580,10 +591,7 @@ class VcsGitStream(Stream):
             extra, _, r = self._last
             ign, tracked = set(r["ignored"]), r["tracked"]
 
-            def in_untracked_dir(x):
-                parts = x.split("/")
-                return any(not any(t.startswith("/".join(parts[:k]) + "/") for t in tracked) for k in range(1, len(parts)))
-            if extra and all((x in ign or any(x.startswith(i + "/") for i in ign)) and in_untracked_dir(x) for x in extra):
+            if extra and all((x in ign or any(x.startswith(i + "/") for i in ign)) and in_unignored_untracked_dir(x, ign, tracked) for x in extra):
                 return "c03-git-ignored-in-untracked-dir"
         return None
 
